@@ -223,3 +223,41 @@ pub fn run(tier: &str, config: &str) -> Report {
     rep.assumptions.push("JH 512 MiB stream: chaining value over the prefix computed with the public jh_x86_64 Compressor (F8 checked against the nibble model by C06), padding and final blocks by the model".into());
     rep
 }
+
+fn replay_one<H: HK>(v: &Value) -> bool {
+    if let Some(p) = v.get("prefix_bytes") {
+        println!("replay C17 {}: real stream of {} bytes - re-run `./check C17 --tier thorough` (the stream is not replayed case by case)", H::NAME, p);
+        return true;
+    }
+    let c: u128 = v["counter"].as_str().unwrap().parse().unwrap();
+    let h: Vec<usize> = v["updates"].as_array().unwrap().iter().map(|x| x.as_u64().unwrap() as usize).collect();
+    let mut r = H::reference();
+    r.set_counter(c);
+    let mut off = 0usize;
+    for l in &h {
+        let d: Vec<u8> = (off..off + l).map(|i| pat_byte(7, i)).collect();
+        r.update(&d);
+        off += l;
+    }
+    let want = r.finalize();
+    println!("replay C17 {}: counter set to {} on a fresh instance, updates {:?}, finalize", H::NAME, c, h);
+    println!("  expected {}", vref::hex(&want));
+    let got = guarded(|| {
+        let mut d = H::D::new();
+        H::set_counter(&mut d, c);
+        let mut off = 0usize;
+        for l in &h {
+            let data: Vec<u8> = (off..off + l).map(|i| pat_byte(7, i)).collect();
+            d.update(&data);
+            off += l;
+        }
+        d.finalize().to_vec()
+    });
+    match got {
+        Err(p) => { println!("  observed PANIC {}", p); false }
+        Ok(g) => { println!("  observed {}", vref::hex(&g)); g == want }
+    }
+}
+pub fn replay(v: &Value) -> Option<bool> {
+    crate::with_hasher!(v["hasher"].as_str()?, replay_one, v)
+}
